@@ -326,6 +326,71 @@ def run(prog: Program, chk: Check):
               f"{ns} manager states x every control frame ({nt} transitions): registered set afterwards = what the frame asked for",
               "the subscription table does not follow the control frames: " + (f"{rt[0][1]}: {rt[0][2]}" if rt else ""))
 
+    # ---- R10 the subscription table is written by the subscription handlers and remove_module only -----------------------
+    # (also through a local that names one of its entries: `subs = self.subscriptions[t]; subs |= self.subscriptions[ALL]` copies the
+    # subscribe-to-all modules into the type's own set for good - they keep receiving the type after UNSUBSCRIBE / PAUSE of ALL)
+    R10 = chk.rule("C01-R10", "only add_subscription / remove_subscription / remove_module change self.subscriptions or one of its entries (aliases included)", 1,
+                   "a delivery path that edits a subscriber set changes who is subscribed without any control frame")
+    SETMUT = {"add", "discard", "remove", "update", "clear", "pop", "difference_update", "intersection_update", "symmetric_difference_update", "__ior__", "__iand__", "__isub__"}
+    writers_ok = {"add_subscription", "remove_subscription", "remove_module", "__init__"}
+    nentry = 0
+    for f in prog.cls(MGR, "MessageManager").methods.values():
+        entry_alias = set()
+        for n in walk_local(f.node):
+            if isinstance(n, ast.Assign) and len(n.targets) == 1 and isinstance(n.targets[0], ast.Name):
+                v = n.value
+                if (isinstance(v, ast.Subscript) and path_of(v.value) == "self.subscriptions") or \
+                        (isinstance(v, ast.Call) and isinstance(v.func, ast.Attribute) and v.func.attr in ("get", "setdefault") and path_of(v.func.value) == "self.subscriptions"):
+                    entry_alias.add(n.targets[0].id)
+
+        def is_entry(e):
+            return (isinstance(e, ast.Subscript) and path_of(e.value) == "self.subscriptions") or (isinstance(e, ast.Name) and e.id in entry_alias) or path_of(e) == "self.subscriptions"
+
+        for n in walk_local(f.node):
+            hit = None
+            if isinstance(n, ast.Call) and isinstance(n.func, ast.Attribute) and n.func.attr in SETMUT and is_entry(n.func.value):
+                hit = n
+            elif isinstance(n, ast.AugAssign) and is_entry(n.target):
+                hit = n
+            elif isinstance(n, (ast.Assign, ast.Delete)) and any(isinstance(t, ast.Subscript) and path_of(t.value) == "self.subscriptions" for t in n.targets):
+                hit = n
+            if hit is not None:
+                nentry += 1
+                okw = f.name in writers_ok or (prog.is_expanded_helper(f) and False)
+                R10.decide(okw, fkey(f, hit), where(f, hit), "subscription table written by a subscription handler / remove_module",
+                           f"{f.qual} changes the subscription table (`{norm(hit)[:70]}`): subscribers are added or removed without a control frame")
+    if nentry < 3:
+        raise AnalysisError(f"anchor vanished: writes to self.subscriptions (found {nentry})")
+
+    # ---- R11 client connections stay blocking: a frame that arrives in pieces is still read whole -----------------------------
+    def mode_changes(tree_or_func):
+        hits = []
+        for c in [x for x in ast.walk(tree_or_func) if isinstance(x, ast.Call)]:
+            if isinstance(c.func, ast.Attribute) and c.func.attr in ("settimeout", "setblocking") and "listen" not in (path_of(c.func.value) or ""):
+                a = c.args[0] if c.args else None
+                harmless = isinstance(a, ast.Constant) and ((c.func.attr == "settimeout" and a.value is None) or (c.func.attr == "setblocking" and a.value is True))
+                if not harmless:
+                    hits.append(c)
+        return hits
+
+    R11 = chk.rule("C01-R11", "no timeout / non-blocking mode is ever set on a client connection of the manager", 1,
+                   "with a timeout the socket is non-blocking underneath: MSG_WAITALL reads return short, a message that arrives in two TCP segments is dropped together with its publisher")
+    import os as _os
+    fx_path = _os.path.join(_os.path.dirname(_os.path.dirname(_os.path.dirname(_os.path.abspath(__file__)))), "fixtures", "c01_manager_socket_mode.py")
+    try:
+        fx_hits = mode_changes(ast.parse(open(fx_path, encoding="utf-8").read()))
+    except OSError:
+        fx_hits = []
+    if len(fx_hits) != 1:
+        raise AnalysisError(f"C01-R11 detector no longer matches its positive example fixtures/c01_manager_socket_mode.py exactly once (found {len(fx_hits)})")
+    nscan = 0
+    for f in prog.module(MGR).functions.values():
+        nscan += 1
+        for c in mode_changes(f.node):
+            R11.bad(fkey(f, c), where(f, c), f"{f.qual}: `{norm(c)}` puts a client connection into timeout / non-blocking mode: a frame read with MSG_WAITALL can come back short and is taken for a dead peer")
+    if not R11.instances:
+        R11.ok(f"{MGR}|socket-mode", prog.module(MGR).rel, f"{nscan} manager functions scanned, no socket mode change; the positive example in fixtures/c01_manager_socket_mode.py matched")
+
     # ---- R7 readiness is polled for every connection, in the round in which it is used ---------------------------------
     R7 = chk.rule("C01-R7", "wlist is refreshed from a write-select over every connection before a round's frames are serviced", 2,
                   "a connection left out of the poll is treated as 'cannot accept data' although it can: the message is dropped for a subscribed, writable module")
